@@ -2,7 +2,7 @@ SPECIFICATION MSpec
 CONSTANTS
   Coins = {"acoin", "bcoin"}
   ModContracts <- MCMods2
-  ExtContracts = {"x1", "x2"}
+  ExtContracts = {"x1", "x2", "x3"}
   BadContracts = {"xd", "xm"}
   Amts = {1, 2, 7}
   Start = 5
